@@ -84,6 +84,10 @@ def check_tokenizer(ctx):
         optional = {(f"{cv} in self.whitespaces", False), (f"{cv} in self.operators", False), (f"{cv} in self.comment_start_chars", False), (f"{cv} in self.comment_start_chars", True)}
         ok = len(nodes) == 1 and want <= got[0] and not (got[0] - want - optional)
         ctx.ob("C19.G1", q, ok, label if ok else f"not ({label}): the action is taken under {[cnd.show(g) for g in got]}, the documented syntax needs {cnd.show(want)}", key="class " + label.split()[0], where=f.where)
+    ws = repo.const("SFDLTokenizer", "whitespaces")
+    ok = isinstance(ws, str) and set(ws) == set(" \t\n\r")
+    ctx.ob("C19.G1", "SFDLTokenizer", ok, "blank, tab and both line breaks separate words" if ok else
+           f"whitespace characters are {ws!r}: a definition laid out with {sorted(set(' \t\n\r') - set(ws or ''))!r} is mis-tokenised although the syntax allows arbitrary white space", key="whitespace", where=repo.cls("SFDLTokenizer").where)
     ok = repo.const("SFDLTokenizer", "comment_start_chars") == "#" and set(repo.const("SFDLTokenizer", "comment_end_chars")) == {"\n", "\r"} and repo.const("SFDLTokenizer", "operators") == "<>"
     ctx.ob("C19.G1", "SFDLTokenizer", ok, "alphabet: '#' comment, line-break end, '<' '>' operators" if ok else "tokenizer alphabet constants deviate from the documented syntax", key="alphabet", where=repo.cls("SFDLTokenizer").where)
     g = repo.method("SFDLTokenizer", "_get_char", inherited=False)
